@@ -201,11 +201,12 @@ def relTol : Float := 1.00001e-8
 /-- 1e-8 relative on an activity = this many log10 units -/
 def logTol : Float := 4.3430e-9
 
-def evalBlock (b : Block) : Array String := Id.run do
+def evalBlock (b : Block) (prev : Array (String × Float)) : Array String × Array (String × Float) := Id.run do
   let mut out : Array String := #[]
+  let mut hist := prev
   let sites := b.unks.filter (·.type == 20)
   out := out.push s!"N {b.case} {b.blk} {if b.present then 1 else 0} {b.state} {b.stype} {b.dltype} {sites.size} {b.charges.size} {b.sps.size}"
-  if !b.present then return out
+  if !b.present then return (out, hist)
   let env : Env Float := { tol := relTol, ineqTol := b.ineqTol, minRel := b.minRel, epsr := b.epsr, tk := b.tk, mu := b.mu }
   let tk := b.tk
   -- which charge a site element belongs to
@@ -221,20 +222,24 @@ def evalBlock (b : Block) : Array String := Id.run do
     let sum := b.sps.foldl (fun acc sp =>
       sp.elts.foldl (fun a e => if e.1 == u.elt then a + sp.moles * (e.2.1 * u.masterCoef) else a) acc) 0.0
     let row : Row Float := Row.site u.moles sum
+    hist := hist.push (u.elt, Surface.maxv sum u.moles)
     out := out.push (vline b "V" "site" u.elt (!row.fails env) sum u.moles)
     out := out.push (vline b "T" "site-f" u.elt (close 1e-12 1e-30 u.f sum) u.f sum)
     out := out.push (vline b "T" "site-res" u.elt (close 1e-6 (1e-14 * u.moles.abs + 1e-300) u.resid (u.moles - u.f)) u.resid (u.moles - u.f))
     match findOut b s!"surf:{u.elt}" with
     | some v => out := out.push (vline b "T" "pub-surf" u.elt (close 1e-12 1e-30 v sum) v sum)
     | none => pure ()
-    -- sites of a surface related to an EQUILIBRIUM_PHASES / KINETICS reactant: proportion × moles of the reactant
+    -- sites of a surface related to an EQUILIBRIUM_PHASES / KINETICS reactant: proportion × moles of the reactant.
+    -- A kinetic reactant changes the sites by increments (-proportion·Δm is added to the reaction), so the 1e-8 relative
+    -- that every calculation is allowed accumulates over the calculations of a run: absolute tolerance (k+2)·1e-8·(largest site total seen so far in the run) at block k.
     match b.comps.find? (·.formula == u.comp) with
     | some c =>
       let rel := if c.phase != "" then findOut b "equi" else if c.rate != "" then findOut b "kin" else none
       match rel with
       | some m =>
+        let big := hist.foldl (fun a h => if h.1 == u.elt then Surface.maxv a h.2 else a) (Surface.maxv sum (c.prop * m))
         if b.state == 5 && m > b.minRel && u.moles > b.minRel then
-          out := out.push (vline b "V" "site-related" u.elt (close relTol 0.0 sum (c.prop * m)) sum (c.prop * m))
+          out := out.push (vline b "V" "site-related" u.elt (close 0.0 (((b.blk.toNat?.getD 0).toFloat + 2.0) * relTol * big) sum (c.prop * m)) sum (c.prop * m))
       | none => pure ()
     | none => pure ()
   -- potentials of a charge structure
@@ -381,19 +386,28 @@ def evalBlock (b : Block) : Array String := Id.run do
             out := out.push (vline b "V" "pub-cd1" c.name (close relTol b.tol (s0 + s1) (c.cap1 * (p1 - p2))) (s0 + s1) (c.cap1 * (p1 - p2)))
           | _, _, _, _ => pure ()
         | _, _, _ => out := out.push (vline b "V" "charge-row" c.name false 0 1)
-  return out
+  return (out, hist)
 
 def run : IO Unit := do
   let lines ← readLines (← IO.getStdin)
   let out ← IO.getStdout
   let mut cur : Option Block := none
+  let mut hist : Array (String × Float) := #[]
+  let mut lastCase := ""
   for l in lines do
     let ws := words l
     match ws with
-    | ["B", c, k] => cur := some { case := c, blk := k }
+    | ["B", c, k] =>
+      if c != lastCase then
+        hist := #[]
+        lastCase := c
+      cur := some { case := c, blk := k }
     | ["E"] =>
       match cur with
-      | some b => for s in evalBlock b do out.putStrLn s
+      | some b =>
+        let (ls, h) := evalBlock b hist
+        hist := h
+        for s in ls do out.putStrLn s
       | none => pure ()
       cur := none
     | _ =>
